@@ -13,6 +13,10 @@ import (
 )
 
 func runSched(cmd string, args []string) error {
+	if cmd == "stress" {
+		return runStress(args)
+	}
+
 	if cmd != "sched" {
 		return fmt.Errorf("unknown command %q", cmd)
 	}
@@ -44,6 +48,39 @@ func runSched(cmd string, args []string) error {
 	progs := drv.SchedPrograms(*target == "memfs", *seed, *triples, *pairs2)
 
 	st, err := drv.ExploreAll(f, progs, strings.Split(*names, ","), *bound, *maxRuns, *seed, *shard, *nshard, of)
+	if err != nil {
+		return err
+	}
+
+	b, _ := json.Marshal(st)
+	fmt.Println(string(b))
+
+	return nil
+}
+
+func runStress(args []string) error {
+	fl := flag.NewFlagSet("stress", flag.ExitOnError)
+	target := fl.String("target", "memfs", "memfs | orefafs")
+	out := fl.String("out", "", "histories of the small programs (ndjson)")
+	seed := fl.Int64("seed", 1, "seed")
+	progs := fl.Int("progs", 100, "programs")
+	maxG := fl.Int("maxg", 16, "goroutines per large program at most")
+	length := fl.Int("len", 30, "calls per goroutine in large programs")
+	names := fl.String("names", "a,b,d,e,c", "names probed")
+	_ = fl.Parse(args)
+
+	of, err := os.Create(*out)
+	if err != nil {
+		return err
+	}
+	defer of.Close()
+
+	f, err := drv.NewFactory(*target)
+	if err != nil {
+		return err
+	}
+
+	st, err := drv.Stress(f, *seed, *progs, *maxG, *length, strings.Split(*names, ","), of)
 	if err != nil {
 		return err
 	}
